@@ -3,6 +3,9 @@ TRUST = ('Trusted base: the exact rational reference model (mc/exact.py), the ob
 
 E1 = 'bounded-exhaustive explicit enumeration of a finite scene space on the real code, every scene compared with an exact rational reference model'
 
+E2 = 'explicit-state breadth-first search whose transition function is the real code (states keyed by bit-exact object-graph / configuration snapshots), invariant checked in every state'
+E3 = 'closure / orbit breadth-first search with model-side nodes (exact denotations, group elements), every edge executed on the real code and checked for conformance'
+
 _T = {
  'C01': ('exploration', 'Every ordered pair of flat objects (Line/HalfLine/Segment through all ordered lattice point pairs, all distinct lattice planes, '
          'half-lattice points) under exact oblique poses is intersected by the real code (function and method form) and compared with the closed-form exact model; '
@@ -21,6 +24,29 @@ _T = {
          'function/method forms: value against the exact rational squared distance, sign, symmetry, zero iff intersection non-empty.'),
  'C11': ('exploration', 'All ordered pairs of lattice direction vectors (quick: D2xD2 plus every exactly parallel/anti-parallel/perpendicular pair of {-3..3}^3; thorough: all 342^2) '
          'x 5 type combinations x angle/parallel/orthogonal x function, swapped, method forms against exact cos^2 and exact flags.'),
+ 'C04': ('exploration', 'Reduced-alphabet scene sets of C01-C03 covering all 28 unordered / 49 ordered type pairs and their relation cells, each scene in all four call forms '
+         '(function, swapped, method, swapped method): no exception, every form denotes the exact set, result type in the table parsed from the documentation; None operands.'),
+ 'C08': ('exploration', 'For every base object (lattice lines, half-lines, segments, planes, points, vectors, catalogue polygons/polyhedra x poses) its whole family of alternative '
+         'representations and of near misses: all pairs compared with ==, !=, hash and set de-duplication; == against foreign types.'),
+ 'C14': ('exploration', 'Full product of centres x radii x axis directions (all lattice directions incl. +-axes, fixed near-axis catalogue straddling SMALL_ANGLE) x resolutions for '
+         'Circle/Cylinder/Cone/Sphere; independent lattice pairs/triples for Parallelogram/Parallelepiped: counts, vertices on the specified surface, equal steps, '
+         'closed-form area/volume, validity, arguments unmodified.'),
+ 'C15': ('exploration', 'Every invalid-input class of the statement instantiated over lattice positions x poses (incl. 1e-12 near-duplicates, every order of collinear / non-coplanar '
+         'vertex lists, open and inconsistent face sets, all unsupported operand type pairs, move(non-Vector) on all types): the call must raise, never return.'),
+ 'C18': ('exploration', 'Grid of all ordered pairs of {-2..2}^3 vectors x 4 coordinate types x 10 operations compared exactly with component formulas; one execution with polynomial '
+         'indeterminates (ring type forbidding comparison/conversion) bounding the degree so that the grid decides the identity; all 5^3 promotion mixtures; metric functions over D2 x magnitudes.'),
+ 'C07': ('model_checking', 'Explicit-state BFS over histories of move / chained move / deepcopy / move-and-back on real objects of all 7 types; state = bit-exact snapshot of receiver and '
+         'returned handle (with aliasing) + model translation; in every state both handles answer a query battery (membership, intersection, distance, angle, measures, ==, hash, cached '
+         'derived attributes) exactly like a freshly constructed object at the model translation.'),
+ 'C12': ('model_checking', 'Closure search of a pool of 41 mutually related objects of all 7 types under intersection to depth 2 (all ordered triples, both nestings, all 343 type triples in '
+         'the thorough tier): every executed edge must land on the exact model node (associativity, commutativity, idempotence, absorption) and result vertices must be `in` both operands.'),
+ 'C13': ('model_checking', 'Breadth-first orbit search over the Cayley graph of the 48 cube symmetries x translation x scalings for every base scene of the pool (and for the shape builders): '
+         'every query answer at node g must equal g applied to the answer at the identity (differential, no expected values).'),
+ 'C19': ('model_checking', 'All sequences of the 18 set_eps / set_sig_figures calls to the stated depth executed on the real process-global configuration (state = all FLOAT_EPS / SIG_FIGURES '
+         'copies in Geometry3D.*); in every history the relation between the globals and a perturbation battery (eps/1000, eps/100, 4 eps on every defining coordinate of catalogue objects '
+         'of all types) must hold, with identical outcome along all histories into the same configuration.'),
+ 'C20': ('model_checking', 'Every query instance and every ordered pair of query instances on a pool of objects of all types must be a self-loop on the bit-exact snapshot of the pool and of '
+         'all module globals with history-independent answers; every history (to the stated depth) of shared-argument mutations, deep copies and moves for each composite recipe.'),
  'C16': ('exploration', 'Every augmented matrix of shapes 1x3..3x4 over small integer/half-integer alphabets is solved by the real solver and compared '
          'with exact rational Gaussian elimination (truthiness, free-parameter count, every returned tuple substituted back).'),
  'C17': ('exploration', 'All planes Plane(p,n) with n in {-2..2}^3 (every zero/sign pattern), all (a,b,c,d) coefficient tuples, all non-collinear lattice point triples, all (v,w) '
@@ -31,17 +57,21 @@ _ENG = {}
 CHECKS = []
 for pid in sorted(_T):
     lvl, text = _T[pid]
-    eng = 'E1'
+    eng = {'C07': 'E2', 'C19': 'E2', 'C20': 'E2', 'C12': 'E3', 'C13': 'E3'}.get(pid, 'E1')
     CHECKS.append({'id': pid, 'engine': eng, 'level': lvl, 'ref': 'DESIGN.md §3 ' + pid,
-                   'technique': E1 if eng == 'E1' else '', 'text': text, 'note': TRUST})
+                   'technique': {'E1': E1, 'E2': E2, 'E3': E3}[eng], 'text': text, 'note': TRUST})
 
 ENGINES = [
     {'name': 'E1', 'path': 'mc/core.py', 'serves_properties': [c['id'] for c in CHECKS if c['engine'] == 'E1'],
      'kind_free_text': 'sharded bounded-exhaustive product enumerator over scene alphabets, run on the real code against the exact model (mc/exact.py)'},
+    {'name': 'E2', 'path': 'mc/e2.py', 'serves_properties': [c['id'] for c in CHECKS if c['engine'] == 'E2'],
+     'kind_free_text': 'explicit-state BFS over operation histories replayed on fresh real objects; state key = canonical bit-exact snapshot (mc/snapshot.py)'},
+    {'name': 'E3', 'path': 'mc/props/C12.py, mc/props/C13.py', 'serves_properties': [c['id'] for c in CHECKS if c['engine'] == 'E3'],
+     'kind_free_text': 'closure search under intersection / orbit search over a transformation group, nodes on the model side, edges executed on the implementation'},
 ]
 
 _ALL = ['C%02d' % i for i in range(1, 21)]
-NOT_APPLICABLE = [{'property_id': p, 'reason': 'check not built yet in this revision (planned, see DESIGN.md §3); nothing is claimed for it'}
+NOT_APPLICABLE = [{'property_id': p, 'reason': 'not claimed in this revision'}
                   for p in _ALL if p not in {c['id'] for c in CHECKS}]
 
 NOTES = ('All checks: python -m mc.check <id> --tier quick|thorough, cwd /verif, exit 0/1 per the interface, exit 2 = harness error. '
